@@ -215,9 +215,11 @@ def run(tier):
     contents = []
     for _ in range(60 if tier == "quick" else 400):
         contents.append(sidecar_content(rng, rng.choice(CLASSES))[0].decode("latin-1"))
-    contents += ["", "\n", "a", "a\n", "a\r", "a\r\n", "\r\n\r\n", "a\rb\r\nc\n\rd", " \n \n", "x" * 20479 + "\n" + "tail\n",
-                 "x" * 20480 + "\ny\n", "x" * 20481 + "\ny\n", ("y" * 99 + "\n") * 204 + "z" * 79 + "\n" + "w\n",
+    contents += ["", "\n", "a", "a\n", "a\r", "a\r\n", "\r\n\r\n", "a\rb\r\nc\n\rd", " \n \n", "\n\n", "a\n\n", "a\n\n\n",
+                 "x" * 20479 + "\n" + "tail\n", "x" * 20480 + "\ny\n",
                  ("y" * 99 + "\n") * 204 + "z" * 80 + "\n" + "w\n"]
+    if tier == "thorough":
+        contents += ["x" * 20481 + "\ny\n", ("y" * 99 + "\n") * 204 + "z" * 79 + "\n" + "w\n"]
     res = impl_run([{"op": "c15_eavalue", "inputs": contents}])
     if not res[0]["ok"]:
         raise RuntimeError(res[0]["err"] + res[0].get("tb", ""))
@@ -299,7 +301,7 @@ def run(tier):
         tree, items, _ = worlds[wi]
         near = [e for e in tree if ("/" + e["path"]).startswith(sel.split("|")[0]) and len(e.get("data", "")) < 30000]
         rep = {"what": what, "form": form, "selector": sel, "request_latin1": gen.lat(req), "tls": tls,
-               "response_latin1": out[:1500], "world": {"tree": near[:12]}, "kind": "gplus"}
+               "response_latin1": out[:1500], "world": {"tree": near[:200]}, "kind": "gplus"}
         rep.update(extra)
         chk.violation(rep, tag=tag)
 
